@@ -65,6 +65,11 @@ impl Proj {
 
     /// parse + infer; `Err` carries a printable reason (the module is not accepted)
     pub fn check(&mut self, source_code: &str) -> Result<CheckedModule, String> {
+        self.check_tracing(source_code, Tracing::All(TraceLevel::Silent))
+    }
+
+    /// `check` with the `Tracing` the type checker runs under (it decides how `trace` / `?` are elaborated)
+    pub fn check_tracing(&mut self, source_code: &str, tracing: Tracing) -> Result<CheckedModule, String> {
         let kind = ModuleKind::Validator;
         let name = MODULE.to_owned();
         let (mut ast, extra) =
@@ -87,7 +92,7 @@ impl Proj {
                 module.kind,
                 &self.package,
                 &self.module_types,
-                Tracing::All(TraceLevel::Silent),
+                tracing,
                 &mut warnings,
                 None,
             )
